@@ -630,3 +630,33 @@ Proof.
   simpl. repeat split; try (intros p H; inversion H; reflexivity); eauto.
 Qed.
 End Witnesses.
+
+(* ---------------------------------------------------------------------------------------- *)
+(* selection of the key function from the environment value                                 *)
+From Coq Require Import String NArith.
+Section HashModeLemmas.
+Import HashMode.
+
+Lemma hash_mode_spec_l : forall v n,
+  hash_mode v = PyHash n <-> exists s, v = EnvStr s /\ isdigit s = true /\ n = parse_acc 0 s.
+Proof.
+  intros v n; split.
+  - destruct v as [|s]; simpl; [discriminate|].
+    destruct (isdigit s) eqn:E; [|discriminate]. intros H; inversion H; subst. eauto.
+  - intros (s & -> & E & ->). simpl. rewrite E. reflexivity.
+Qed.
+
+Lemma hash_mode_fallback_l : forall v,
+  (v = EnvUnset \/ exists s, v = EnvStr s /\ isdigit s = false) <-> hash_mode v = Sha256.
+Proof.
+  intros v; split.
+  - intros [->|(s & -> & E)]; simpl; [reflexivity|rewrite E; reflexivity].
+  - destruct v as [|s]; simpl; auto. destruct (isdigit s) eqn:E; [discriminate|]. right; eauto.
+Qed.
+
+Lemma hash_mode_examples_l :
+  map hash_mode [EnvUnset; EnvStr ""%string; EnvStr "0"%string; EnvStr "1234"%string; EnvStr "4294967295"%string; EnvStr "random"%string;
+                 EnvStr "abc"%string; EnvStr " 1"%string; EnvStr "-1"%string; EnvStr "12a"%string]
+  = [Sha256; Sha256; PyHash 0%N; PyHash 1234%N; PyHash 4294967295%N; Sha256; Sha256; Sha256; Sha256; Sha256].
+Proof. vm_compute. reflexivity. Qed.
+End HashModeLemmas.
